@@ -43,7 +43,7 @@ func (c *c09) Phases(tier string) []PhaseSpec {
 			{Name: "deliver", Runs: 3000000, Note: "seeded faults on the searched stream, base and fault-surviving programs"},
 		}
 	}
-	return []PhaseSpec{{Name: "deliver", Runs: 60000, Note: "seeded faults on the searched stream, base and fault-surviving programs"}}
+	return []PhaseSpec{{Name: "deliver", Runs: 40000, Note: "seeded faults on the searched stream, base and fault-surviving programs"}}
 }
 
 func (c *c09) Rule() string {
@@ -56,11 +56,12 @@ func (c *c09) Assumptions() []string {
 		"fault-surviving programs are used only if they contain no `loop` statement and no subroutine, so that termination is not in question",
 		"step budget = 200 x the unfaulted pair + 100000 logical steps; exceeding it is a violation only for the unmodified program on a prefix of its own text, otherwise the run is discarded (termination in general is C10, not claimed)",
 		"a directory argument holds regular files only",
+		"every file RunFiles opens for reading is closed again when it returns (seen in the file-system call history): otherwise a directory with more files than the descriptor limit ends in the I/O panic the property excludes",
 	}
 }
 
 func (c *c09) ProbeNames() []string {
-	return []string{"text_cut_mid_match", "text_emptied", "text_corrupted", "delivery_string", "delivery_file", "delivery_directory", "program_survived_source_fault", "empty_file_delivered", "zero_matches_result", "replace_program_run", "boundary_sized_input"}
+	return []string{"text_cut_mid_match", "text_emptied", "text_corrupted", "delivery_string", "delivery_file", "delivery_directory", "program_survived_source_fault", "empty_file_delivered", "zero_matches_result", "replace_program_run", "boundary_sized_input", "directory_with_many_files"}
 }
 
 func (c *c09) SweepPrefix(phase string, i uint64) []uint64 {
@@ -167,6 +168,39 @@ type c09desc struct {
 	Faults   []string `json:"text_faults"`
 	Text     string   `json:"delivered_text"`
 	Outcome  string   `json:"outcome"`
+}
+
+// leakedReaders reports the files that were opened read-only during the op (in its file-system
+// call history) and not closed again by the time it returned. A finalizer closing them later
+// does not count: until then a directory with more files than the descriptor limit cannot be searched.
+func leakedReaders(events []simrt.IOEvent) (int, string) {
+	open := map[string]int{}
+	var order []string
+	for _, e := range events {
+		switch e.Op {
+		case "open":
+			if e.Flags == os.O_RDONLY {
+				if open[e.Path] == 0 {
+					order = append(order, e.Path)
+				}
+				open[e.Path]++
+			}
+		case "close":
+			if open[e.Path] > 0 {
+				open[e.Path]--
+			}
+		}
+	}
+	n, first := 0, ""
+	for _, p := range order {
+		if open[p] > 0 {
+			n += open[p]
+			if first == "" {
+				first = filepath.Base(p)
+			}
+		}
+	}
+	return n, first
 }
 
 func mutateSource(t *Tape, src string) string {
@@ -300,8 +334,8 @@ func (c *c09) Run(ctx *RunCtx) *RunResult {
 	}
 	// boundary-sized files: pad in front so that the interesting text sits
 	// beyond the first read window of a file-backed reader
-	if t.Draw(24) == 1 {
-		target := []int{2100, 4096, 4097, 6000, 8193, 65537}[t.Draw(6)]
+	if t.Draw(40) == 1 {
+		target := []int{2100, 4096, 4097, 6000, 8193, 70000}[t.Draw(6)]
 		if target > 60000 && t.Draw(4) != 1 {
 			target = 8193 // the 64 KiB case is expensive: keep it rare
 		}
@@ -309,9 +343,17 @@ func (c *c09) Run(ctx *RunCtx) *RunResult {
 			pad := make([]byte, 0, target)
 			i := uint64(0)
 			for len(pad) < target-len(text) {
+				if target > 60000 {
+					// one long stretch in which hardly any program finds anything
+					pad = append(pad, "QQQQQQQQQQQQQQQQ"...)
+					continue
+				}
 				pad = append(pad, fillerWords[mix(i, 9)%uint64(len(fillerWords))]...)
 				pad = append(pad, ' ')
 				i++
+			}
+			if g := uint64(target/(len(it.Text)+1)) + 2; g > growth {
+				growth = g // the step budget follows the size of the delivered text
 			}
 			text = append(pad[:target-len(text)], text...)
 			prefixOnly = false
@@ -347,6 +389,8 @@ func (c *c09) Run(ctx *RunCtx) *RunResult {
 		ctx.Count("replace_program_run", 1)
 	}
 	var out Outcome
+	manyFiles := 0
+	simrt.ClearIO()
 	simrt.OpStart(budget)
 	switch delivery {
 	case "string":
@@ -368,9 +412,24 @@ func (c *c09) Run(ctx *RunCtx) *RunResult {
 		if t.Draw(3) == 1 {
 			os.WriteFile(filepath.Join(dir, "empty"), nil, 0644)
 		}
+		if t.Draw(10) == 1 {
+			// a directory with more entries than any worker pool has lanes or batches,
+			// now and then with more entries than the process may hold descriptors
+			n := t.Range(33, 47)
+			for k := 0; k < n; k++ {
+				os.WriteFile(filepath.Join(dir, fmt.Sprintf("m%03d.txt", k)), []byte(it.Text[:len(it.Text)*(k%3)/3]), 0644)
+			}
+			ctx.Count("directory_with_many_files", 1)
+			manyFiles = n
+		}
 		out, _ = doRunFiles(v, []string{dir}, engine.NOTHING, ctx.World)
 	}
 	simrt.OpEnd()
+	leaked, leakedFirst := 0, ""
+	if out.Class == "ok" && delivery != "string" && simrt.IODropped == 0 {
+		// (a history that overflowed the event log is not judged)
+		leaked, leakedFirst = leakedReaders(simrt.IOEvents())
+	}
 	res.Steps = simrt.Steps
 	simrt.Stop()
 	ctx.Count("delivery_"+delivery, 1)
@@ -385,6 +444,9 @@ func (c *c09) Run(ctx *RunCtx) *RunResult {
 	res.EventHash = mix(hashStr(src), hashStr(string(text)), hashStr(delivery), hashStr(out.String()))
 	res.Sig = mix(hashStr(src), hashStr(string(text)), hashStr(delivery))
 	where := fmt.Sprintf("program %q on text %q (faults %v) delivered as %s", trunc(src, 200), trunc(string(text), 120), faults, delivery)
+	if leaked > 0 {
+		addV("descriptor-balance", "searched-files-left-open", fmt.Sprintf("%s => returned with %d searched file(s) still open (first: %s); a directory or glob with more files than the descriptor limit then ends in an I/O panic", where, leaked, leakedFirst))
+	}
 	switch out.Class {
 	case "panic":
 		addV("no-panic", "run-panic:"+panicKey(out.Detail), where+" => panic "+out.Detail)
@@ -393,7 +455,7 @@ func (c *c09) Run(ctx *RunCtx) *RunResult {
 		// unmodified program on a prefix of its own text can be held to it;
 		// a fault-surviving program or a corrupted/duplicated text may
 		// legitimately backtrack much longer (termination is C10, not claimed).
-		if !mutated && prefixOnly {
+		if !mutated && prefixOnly && manyFiles == 0 {
 			addV("returns", "run-abort:"+out.Detail, where+" => did not return within its budget ("+out.Detail+")")
 		} else {
 			ctx.Count("discarded_budget", 1)
